@@ -181,7 +181,37 @@ def make_setup(cfg, mode, plan_filter, seed, allow=None):
             p.payload = bytes([0, 0]) + real_p.packet_id.to_bytes(2, "little")
             p.signature = enc.calc_packet_signature(p, out.session_key, enc.calc_connection_signature(tx.dst))
             inj(tx.dst, tx.src, enc.encode(p), D, ("forged", "session-id", 2, 0x201, tx.n))
+        def on_tx_connect_replay(tx):
+            # a CONNECT is signed with the access key and the address-derived connection signature only: after the handshake
+            # anybody can re-send the client's CONNECT with another session id / connection-signature option. An established
+            # connection must treat it like a retransmission (acknowledge it, change nothing).
+            from nintendo.nex import prudp
+            import copy
+            if tx.dst != ps.SERVER:
+                return
+            pk = obs.decode(tx.data)
+            if not pk:
+                return
+            if pk[0].type == 1 and not pk[0].flags & 1:
+                out._connect = pk[0]
+                return
+            if getattr(out, "_connect", None) is None or pk[0].type != 2 or pk[0].flags & 1 or not pk[0].flags & 2:
+                return
+            out._nth = getattr(out, "_nth", 0) + 1
+            variant, nth = mode.split(":")[1], int(mode.split(":")[2])
+            if out._nth != nth:
+                return
+            enc = prudp.PRUDPMessageSelector(s).select(cfg.version)
+            q = copy.copy(out._connect)
+            if variant in ("session-id", "both"):
+                q.session_id = (q.session_id + 1 + rng.randrange(250)) & 0xFF
+            if variant in ("conn-sig", "both"):
+                q.connection_signature = bytes(rng.randrange(256) for _ in range(len(q.connection_signature)))
+            q.signature = enc.calc_packet_signature(q, b"", enc.calc_connection_signature(tx.src))
+            inj(tx.src, tx.dst, enc.encode(q), D + EPS, ("forged", "connect-replay:" + variant, 1, q.flags, tx.n))
         def on_tx(tx):
+            if mode.startswith("connect-replay"):
+                return on_tx_connect_replay(tx)
             if mode == "known-d18":
                 return on_tx_d18(tx)
             if mode.startswith("known"):
@@ -226,12 +256,15 @@ def observe(sess):
             "final": getattr(sess, "final_state", None), "send_errors": [e[:3] for e in sess.send_errors]}
 
 
-def first_diff(a, b):
+def first_diff(a, b, skip=None):
+    """skip(src, data) -> True: datagrams left out of the comparison of what the genuine parties emit"""
     for k in ("connect_error", "final", "send_errors", "deliver", "deliveru", "checkpoints"):
         if a[k] != b[k]:
             return k, repr(a[k])[:300], repr(b[k])[:300]
     for src in sorted(set(a["tx"]) | set(b["tx"])):
         xa, xb = a["tx"].get(src, []), b["tx"].get(src, [])
+        if skip is not None:
+            xa = [x for x in xa if not skip(src, x[2])]; xb = [x for x in xb if not skip(src, x[2])]
         for i, (x, y) in enumerate(zip(xa, xb)):
             if x[1:] != y[1:] or abs(x[0] - y[0]) > 4096:
                 return "tx[%s][%d]" % (src[0], i), repr((x[0], x[1], x[2].hex()[:60])), repr((y[0], y[1], y[2].hex()[:60]))
@@ -327,6 +360,23 @@ def work(args):
     idx, cfgd, seed, mode = args
     try:
         cfg = ps.Cfg(**cfgd)
+        if mode.startswith("connect-replay"):
+            ref, att = run_pair(cfg, seed, mode, None, None)
+            obs = ps.Observer(ref.settings, cfg)
+            def skip(src, data):
+                # the server answers a CONNECT of a known client with another CONNECT/ACK, as it does for a genuine retransmission
+                if src != ps.SERVER: return False
+                pk = obs.decode(data)
+                return bool(pk) and pk[0].type == 1 and bool(pk[0].flags & 1)
+            a, b = observe(ref), observe(att)
+            # checkpoints contain timer counts that the extra acknowledgement does not touch; compared as they are
+            diff = first_diff(a, b, skip) if att.injections else None
+            bad = []
+            if diff:
+                bad.append(("connect-replay", "a CONNECT re-sent by a third party after the handshake (%s) changed the established connection: %s differs (reference %s / attacked %s)"
+                            % (mode.split(":")[1], diff[0], diff[1], diff[2])))
+            stats = {"inj": len(att.injections), "tx": sum(len(v) for v in a["tx"].values()), "kinds": {"forged:connect-replay": len(att.injections)}}
+            return idx, cfgd, seed, mode, bad, att, stats, None
         # v0: full non-interference is demanded of the strict injections only; the others are run separately (data safety)
         allow = (lambda d: strict(cfg, d))
         ref, att = run_pair(cfg, seed, mode, None, allow)
@@ -391,7 +441,8 @@ def run(ctx):
     quick = ctx.tier == "quick"
     ctx.rule = ("twin runs (reference / attacked) of real sessions; attacked = every single-bit flip of every genuine datagram "
                 "(exhaustive sessions) or 24 sampled bits per datagram, 6 double flips per datagram, and forged packets of 12 type/flag "
-                "combinations x {wrong access key, wrong session key, wrong connection signature, wrong session id, spoofed port}, "
+                "combinations x {wrong access key, wrong session key, wrong connection signature, wrong session id, spoofed port}, the client's own CONNECT re-sent after the handshake "
+                "with another session id / connection-signature option (must be handled like a retransmission), "
                 "injected just before/after the genuine datagram; v1 with/without credentials, v0 variants; every attacked v1/v0 run "
                 "is replayed through the Lean L1 model; distinct non-trivial = injected datagrams")
     jobs = []
@@ -407,6 +458,13 @@ def run(ctx):
     jobs.append((n, dict(base, version=0, v0=(0, 1, 1), credentials=True), 2, "known-d17")); n += 1
     for sd in range(3, 9):
         jobs.append((n, dict(base, version=1, credentials=False), sd, "known-d18")); n += 1
+    for variant in ("identical", "session-id", "conn-sig", "both"):
+        for creds in (True, False):
+            for nth in ((1, 3) if quick else (1, 2, 3, 4)):
+                for version in ((1,) if quick else (1, 0)):
+                    cfgd = dict(base, version=version, credentials=creds)
+                    if version == 0: cfgd["v0"] = (0, 1, 1)
+                    jobs.append((n, cfgd, ctx.rng.getrandbits(32), "connect-replay:%s:%d" % (variant, nth))); n += 1
     for _ in range(6 if quick else 60):
         jobs.append((n, dict(base, version=1, credentials=ctx.rng.random() < 0.5, max_substream=ctx.rng.choice([0, 1]),
                              fragment_size=ctx.rng.choice([3, 7, 50])), ctx.rng.getrandbits(32), "flip1-sample")); n += 1
